@@ -132,6 +132,9 @@ fn knobs_for(prop: &str) -> Knobs {
         odd_ea: false,
     };
     match prop {
+        // bit instructions also operate on the timer / port register bytes reachable through @aa:8 (plain storage or,
+        // for the port registers, judged by C16 only)
+        "C04" => Knobs { io8: true, ..base },
         "C05" | "C06" => Knobs { uppers: vec![0, 0, 0x01, 0x80, 0xff, 0x5a], ..base },
         "C08" => Knobs { uppers: vec![0x00, 0x01, 0x7f, 0x80, 0xff, 0x5a, 0xa5], pool: Pool::Edges, ..base },
         "C09" => Knobs { pool: Pool::Edges, odd_ea: true, ..base },
